@@ -756,8 +756,39 @@ pub fn case(rng: &mut Rng) -> F {
 /// n = 14, which the crash stream would report as a hang).  A panic of the real code during this
 /// pre-flight keeps the formula: it is exactly what the stream is looking for.
 pub fn tame(f: &F) -> bool {
-    use anthem::verif::simplifying_fol::sigma_0::{classic::CLASSIC, ht::HT, intuitionistic::INTUITIONISTIC};
+    use std::sync::atomic::{AtomicBool, Ordering};
+    // The pre-flight runs the code under test.  A single rewrite that never returns (seeded change C18_r5:
+    // the fresh-name loop of restrict_quantifier_domain spins when I, I1, I2 all occur) would hang the
+    // GENERATOR, which no watchdog covers: the pre-flight therefore runs on its own thread and is given
+    // PREFLIGHT_SECS; a formula on which it does not return is kept (it is exactly what the stream is
+    // looking for: the command under test hangs on it and the stream's watchdog reports it), and no
+    // further pre-flight is run by this process (the abandoned thread keeps spinning until `gen` exits).
+    static HUNG: AtomicBool = AtomicBool::new(false);
+    const PREFLIGHT_SECS: u64 = 20;
+    if HUNG.load(Ordering::SeqCst) {
+        return true;
+    }
     std::panic::set_hook(Box::new(|_| {}));
+    let f = f.clone();
+    let (tx, rx) = std::sync::mpsc::channel();
+    std::thread::Builder::new()
+        .stack_size(256 << 20)
+        .spawn(move || {
+            let _ = tx.send(tame_now(&f));
+        })
+        .expect("pre-flight thread");
+    match rx.recv_timeout(std::time::Duration::from_secs(PREFLIGHT_SECS)) {
+        Ok(small) => small,
+        Err(std::sync::mpsc::RecvTimeoutError::Timeout) => {
+            HUNG.store(true, Ordering::SeqCst);
+            true
+        }
+        // the thread died without an answer (stack overflow is an abort, so this is a panic outside catch_unwind)
+        Err(std::sync::mpsc::RecvTimeoutError::Disconnected) => true,
+    }
+}
+fn tame_now(f: &F) -> bool {
+    use anthem::verif::simplifying_fol::sigma_0::{classic::CLASSIC, ht::HT, intuitionistic::INTUITIONISTIC};
     // under the CLI's classic portfolio and under CLASSIC alone
     for portfolio in [[INTUITIONISTIC, HT, CLASSIC].concat(), CLASSIC.to_vec()] {
         let f2 = f.clone();
